@@ -641,6 +641,10 @@ inputLoop:
 		}
 	}
 
+	if !aborted {
+		runHumanFile(cfg, cf, res, &caseNo, r)
+	}
+
 	res.Evaluations = caseNo
 	res.Distinct = len(distinct)
 	const per = 400
